@@ -65,6 +65,13 @@ def regex_lemmas(ctx, PR):
     fq = MOD + ":PkgRelation.__dep_RE"
     dep = PR._PkgRelation__dep_RE
     ctx.function_under_contract(fq, repr(dep.pattern))
+    missing = [a for a, _ in GROUPS if a not in dep.groupindex]
+    if missing:
+        # the lemmas speak about the six named groups; a pattern without one of them is a different design (e.g. a part split
+        # off by another pattern first): nothing is concluded here, the bounded part decides
+        ctx.mark_unproved(fq, "contract out of date: __dep_RE has no group %s" % ", ".join(missing))
+        ctx.solve()
+        return
     try:
         def build(marked):
             env = rx.Env()
